@@ -197,7 +197,10 @@ def gen_cases(rng, tier):
                 R = 2 if quick else rng.choice([1, 2, 3])
                 deg = 2 if quick else rng.choice([1, 2, 3])
                 c = {"family": "residual", **_base(rng, True, D, R, 1, deg, B), "name": name,
-                     "Tmax": _q(rng.choice([1, 2, Fraction(1, 2)])), "nu": _dy(rng), "Dc": _dy(rng), "r": _dy(rng),
+                     # (a rescaled time in every run: Tmax = 1 hides a factor that is dropped)
+                     "Tmax": _q(rng.choice([2, Fraction(1, 2)]) if B == Bs[0] else rng.choice([1, 2, Fraction(1, 2)])),
+                     "nu": _dy(rng, (1, 2, Fraction(1, 2), -1, Fraction(3, 2), Fraction(1, 4))) if B == Bs[0] else _dy(rng),
+                     "Dc": _dy(rng), "r": _dy(rng),
                      "g": _dy(rng), "alpha": [_dy(rng), _dy(rng)], "mu": [_dy(rng), _dy(rng)],
                      "sigma": [_q(rng.choice([1, 2, Fraction(1, 2)])), _q(rng.choice([1, 2, -1]))]}
                 cases.append(c)
